@@ -255,7 +255,7 @@ fn check(c: &TwCase, rec: &mut CaseRec) -> Verdict {
 }
 
 pub fn property() -> Property {
-    let families: Vec<Box<dyn Family>> = vec![prop_family("programs-x-configurations", 8_000, 400_000, |_| case(), check)];
+    let families: Vec<Box<dyn Family>> = vec![prop_family("programs-x-configurations", 25_000, 400_000, |_| case(), check)];
     Property {
         id: "C17",
         rule: "Grammar-generated programs (INPUT allowed, reply scripts) that read never-assigned variables and touch undeclared arrays in conditions, subscripts, function bodies and READ/INPUT targets, run in all four warnings x tracing configurations set through the public fields, once more with TRACE typed before RUN, and twice with TRACE / NOTRACE typed at a breakpoint in the middle of the run (7 runs per case). (i) With Trace and Warning records removed, the event sequence (prints, notices, replies), the outcome and the final scalar values + state snapshot are identical in all configurations; a disabled option emits none of its records; the TRACE command equals the field. (ii) In the fully enabled run the trace records with immediate repeats collapsed equal the reference interpreter's collapsed statement-entry line sequence, and the ordered list of (warning text, line) equals the reference interpreter's (one 'Use of undeclared variable' per read of a variable absent from globals and frames, one 'Use of undeclared array' per cell read or write of a non-existent array, attributed to the line being executed). Non-trivial: >= 1 warning, >= 3 collapsed trace records and the raw outputs of the configurations really differ; distinct by program text.",
